@@ -25,7 +25,10 @@ def valid_type(t, depth=2):
     if depth > 0:
         c = z3.And(c, z3.Implies(Ty.is_ArrT(t),
                                  z3.And(valid_type(Ty.aidx(t), depth - 1), valid_type(Ty.aelem(t), depth - 1),
-                                        z3.Not(Ty.is_FunT(Ty.aidx(t))), z3.Not(Ty.is_FunT(Ty.aelem(t))))))
+                                        z3.Not(Ty.is_FunT(Ty.aidx(t))), z3.Not(Ty.is_FunT(Ty.aelem(t))),
+                                        # arrays indexed by arrays are outside the covered fragment (stated
+                                        # assumption): array-valued constants are not canonical
+                                        z3.Not(Ty.is_ArrT(Ty.aidx(t))))))
     return c
 
 
@@ -37,7 +40,7 @@ def in_domain(v, t):
         z3.Implies(t == RealT, Val.is_VReal(v)),
         z3.Implies(t == StrT, Val.is_VStr(v)),
         z3.Implies(Ty.is_BVT(t), z3.And(Val.is_VBV(v), vbv(v) >= 0, vbv(v) < pow2.quiet(Ty.bvw(t)))),
-        z3.Implies(Ty.is_ArrT(t), Val.is_VArr(v)),
+        z3.Implies(Ty.is_ArrT(t), z3.And(Val.is_VArr(v), amk.f(aview(va(v))) == va(v))),
         z3.Implies(Ty.is_CustomT(t), Val.is_VU(v)),
     )
 
@@ -121,6 +124,9 @@ def sem_bv(Kop, w, a, b, n):
     raise KeyError(Kop)
 
 
+pow_frac = z3.Function("pow_frac", R, R, R)
+
+
 def sem_int_div(l, r):
     return z3.If(r == 0, int_div0(l), smt_div(l, r))
 
@@ -168,8 +174,9 @@ def type_rule(Kop, n, at):
     if Kop in (MINUS, DIV):
         return z3.And(z3.BoolVal(k == 2), z3.Or(allt(IntT), allt(RealT))), at[0] if at else IntT
     if Kop == POW:
-        # pySMT: base and exponent of the same arithmetic sort, exponent constant
-        return z3.And(z3.BoolVal(k == 2), z3.Or(allt(IntT), allt(RealT))), at[0] if at else IntT
+        # pySMT's own operator (not in SMT-LIB): base and exponent of the same
+        # arithmetic sort, constant exponent, result of sort Real
+        return z3.And(z3.BoolVal(k == 2), z3.Or(allt(IntT), allt(RealT))), RealT
     if Kop in (LE, LT):
         return z3.And(z3.BoolVal(k == 2), z3.Or(allt(IntT), allt(RealT))), BoolT
     if Kop == EQUALS:
@@ -303,6 +310,12 @@ def sem(Kop, n, av, at):
         return z3.If(vb(av[0]), av[1], av[2])
     if Kop == TOREAL:
         return VReal(z3.ToReal(vi(av[0])))
+    if Kop == POW:
+        isint = at[0] == IntT
+        # meaning given for integer exponents only (others: unconstrained)
+        return VReal(z3.If(isint, rpow(z3.ToReal(vi(av[0])), vi(av[1])),
+                           z3.If(z3.IsInt(vr(av[1])), rpow(vr(av[0]), z3.ToInt(vr(av[1]))),
+                                 pow_frac(vr(av[0]), vr(av[1])))))
     if Kop in (PLUS, TIMES, MINUS, DIV, LE, LT):
         isint = at[0] == IntT
         ii = [vi(a) for a in av]
@@ -452,8 +465,8 @@ def unfold(t, Kop, k):
 _BOOL_OPS = (AND, OR, NOT, IMPLIES, IFF, FORALL, EXISTS, BOOL_CONSTANT, LE, LT, EQUALS, BV_ULT, BV_ULE,
              BV_SLT, BV_SLE, STR_CONTAINS, STR_PREFIXOF, STR_SUFFIXOF)
 _INT_OPS = (INT_CONSTANT, STR_LENGTH, STR_TO_INT, STR_INDEXOF, BV_TONATURAL)
-_REAL_OPS = (REAL_CONSTANT, ALGEBRAIC_CONSTANT, TOREAL)
-_ARITH_OPS = (PLUS, MINUS, TIMES, DIV, POW)
+_REAL_OPS = (REAL_CONSTANT, ALGEBRAIC_CONSTANT, TOREAL, POW)
+_ARITH_OPS = (PLUS, MINUS, TIMES, DIV)
 _STR_OPS = (STR_CONSTANT, STR_CONCAT, STR_REPLACE, STR_SUBSTR, INT_TO_STR, STR_CHARAT)
 
 
@@ -607,32 +620,19 @@ def arith_lemmas(done):
 
 
 def array_axioms(done):
-    """Read-over-write instances for the AV terms created on this path."""
-    stores = list(astore.apps.values())
-    consts = list(acst.apps.values())
-    sels = list(asel.apps.values())
+    """Injectivity of the index-key embedding for the keys created on this path
+    (the array theory itself is z3's, with extensionality)."""
+    ks = list(vkey.apps.values())
     out = []
-    idxs = {}
-    for s in stores:
-        idxs[s.arg(1).get_id()] = s.arg(1)
-    for s in sels:
-        idxs[s.arg(1).get_id()] = s.arg(1)
-    idxs = list(idxs.values())[:8]
-    for s in stores:
-        a, i, v = s.arg(0), s.arg(1), s.arg(2)
-        k = ("st", s.get_id())
+    for m in list(amk.apps.values()):
+        k = ("amk", m.get_id())
         if k not in done:
             done.add(k)
-            out.append(asel.f(s, i) == v)
-        for j in idxs:
-            k = ("stj", s.get_id(), j.get_id())
-            if k not in done and not j.eq(i):
-                done.add(k)
-                out.append(z3.Implies(j != i, asel.f(s, j) == asel.f(a, j)))
-    for c in consts:
-        for j in idxs:
-            k = ("cj", c.get_id(), j.get_id())
+            out.append(aview(m) == m.arg(0))
+    for i, a in enumerate(ks):
+        for b in ks[i + 1:]:
+            k = ("vk", min(a.get_id(), b.get_id()), max(a.get_id(), b.get_id()))
             if k not in done:
                 done.add(k)
-                out.append(asel.f(c, j) == c.arg(0))
+                out.append((a == b) == (a.arg(0) == b.arg(0)))
     return out
